@@ -224,13 +224,12 @@ Definition prec_holds (cls : string) (p : path) (vk vo vf vg vb : val) (src : so
                       fams pristine in
   let d2 := if in_base then set_default d1 "base" p (if s_base src then Some vb else None) else d1 in
   let st0 := fresh_state s in
-  let own0 := match sread s st0 p with Some (Leaf o) => o | _ => None end in
   let '(st1, e1) := if s_obj src then set_leaf s st0 p (Some vo) n else (st0, None) in
   let kw := if s_kw src then show_kw p vk nested else [] in
   let '(res, e2) := get_style cenv s (class_families cls) dstyle_schema (def_style_state d2) valid_keys st1
                               (show_style_kwargs kw) in
   let expected := first_some [if s_kw src then Some vk else None;
-                              if s_obj src then Some vo else own0;
+                              if s_obj src then Some vo else None;   (* a new object has no own value *)
                               if s_fam src && negb (String.eqb own "") then Some vf else None;
                               if s_gen src && has_gen then Some vg else None;
                               if s_base src && in_base then Some vb else None] in
@@ -287,13 +286,53 @@ Definition prec_leaf_holds (cls : string) (l : path * vkind * bool) (src : sourc
   prec_holds cls (fst (fst l)) (sv (snd (fst l)) 0) (sv (snd (fst l)) 1) (sv (snd (fst l)) 2)
              (sv (snd (fst l)) 3) (sv (snd (fst l)) 4) src (fst nv) (snd nv).
 
-(* every public class, every clearable non-alias leaf that show() accepts (alias-written leaves included):
+(* every public class, every clearable non-alias leaf that show() accepts (alias-written leaves included) and that a
+   new object does not already hold (fresh_none; the exceptions are listed in ctor_default_exceptions):
    16 source combinations x 2 notations; where the leaf has a default in two families of the class
    (triangle / triangularmesh next to magnet) also the 16 combinations with the generic family set *)
+(* ---------------------------------------------------------------- a new object has no own style values *)
+(* constructor defaults of the style classes that are not None: (class, parameter) *)
+Fixpoint ctor_defaults (s : schema) : list (string * string) :=
+  match s with
+  | SObj cn _ _ ct props =>
+      map (fun kv => (cn, fst kv)) (filter (fun kv => match snd kv with Some _ => true | None => false end) ct)
+      ++ (fix go (ps : list (string * schema)) : list (string * string) :=
+            match ps with [] => [] | (_, sp) :: r => ctor_defaults sp ++ go r end) props
+  | _ => []
+  end.
+
+(* the known exceptions (open finding precedence/ctor-default:Class.prop): these leaves of a NEW object already hold a
+   value, so the family / base default never applies to them *)
+Definition ctor_default_exceptions : list (string * string) :=
+  [("Model3d", "showdefault"); ("Pixel", "size"); ("ArrowSingle", "show")].
+
+Definition pair_mem (x : string * string) (l : list (string * string)) : bool :=
+  existsb (fun y => String.eqb (fst x) (fst y) && String.eqb (snd x) (snd y)) l.
+
+Definition ctor_defaults_ok : bool :=
+  forallb (fun cs => forallb (fun x => pair_mem x ctor_default_exceptions) (ctor_defaults (snd cs))) style_classes.
+
+(* (class, property) owning the leaf p *)
+Definition leaf_owner (s : schema) (p : path) : string * string :=
+  match sget (removelast p) s with
+  | Some (SObj cn _ _ _ _) => (cn, last p "")
+  | _ => ("", "")
+  end.
+
+Definition fresh_none (s : schema) (p : path) : bool := leaf_is s (fresh_state s) p None.
+
+(* every leaf of a new style object is None, except the listed constructor defaults and the (empty) model3d data *)
+Definition fresh_all : bool :=
+  forallb (fun cs =>
+    forallb (fun l =>
+      fresh_none (snd cs) (fst (fst l)) || pair_mem (leaf_owner (snd cs) (fst (fst l))) ctor_default_exceptions ||
+      match snd (fst l) with KData => true | _ => false end)
+      (sleaves (snd cs))) style_classes.
+
 Definition prec_all : bool :=
   forallb (fun cls =>
     forallb (fun l =>
-      negb (prec_leaf (snd (fst l)) (fst (fst l))) || snd l ||
+      negb (prec_leaf (snd (fst l)) (fst (fst l))) || snd l || negb (fresh_none (class_schema cls) (fst (fst l))) ||
       (forallb (fun src => forallb (prec_leaf_holds cls l src) prec_variants) all_sources &&
        ((List.length (spec_families cls (fst (fst l))) <? 2)%nat ||
         forallb (fun src => prec_leaf_holds cls l src (false, NAttr)) gen_sources)))
